@@ -45,44 +45,6 @@ zero(void *mem, size_t len)
 
 
 bool
-handle_zip_enc(json_t *json, const void *in, size_t len, void **data, size_t *datalen)
-{
-    json_t *prt = NULL;
-    char *z = NULL;
-    const jose_hook_alg_t *a = NULL;
-    jose_io_auto_t *zip = NULL;
-    jose_io_auto_t *zipdata = NULL;
-
-    prt = json_object_get(json, "protected");
-    if (prt && json_is_string(prt))
-        prt = jose_b64_dec_load(prt);
-
-    /* Check if we have "zip" in the protected header. */
-    if (json_unpack(prt, "{s:s}", "zip", &z) == -1) {
-        /* No zip. */
-        *data = (void*)in;
-        *datalen = len;
-        return true;
-    }
-
-    /* OK, we have "zip", so we should compress the payload before
-     * the encryption takes place. */
-    a = jose_hook_alg_find(JOSE_HOOK_ALG_KIND_COMP, z);
-    if (!a)
-        return false;
-
-    zipdata = jose_io_malloc(NULL, data, datalen);
-    if (!zipdata)
-        return false;
-
-    zip = a->comp.def(a, NULL, zipdata);
-    if (!zip || !zip->feed(zip, in, len) || !zip->done(zip))
-        return false;
-
-    return true;
-}
-
-bool
 zip_in_protected_header(json_t *json)
 {
     json_t *prt = NULL;
